@@ -19,7 +19,15 @@ STRINGS = ["", "a", "0", "null", "é", "中文", "\U0001F600", "line\nbreak", "q
 KEYS = ["a", "b", "x1", "k_2", "é", "", "key with space", "0"]
 
 
+_GEN_PLAIN_JSONCLASS = False
+
+
 def gen_value(rng, depth=0, nokeys=False):
+    if _GEN_PLAIN_JSONCLASS and rng.random() < 0.06:
+        # class translation is off: such members are plain data and travel verbatim
+        import copy
+
+        return copy.deepcopy(rng.choice(JSONCLASS_LOOKALIKES))
     k = rng.random()
     if depth >= 3:
         k *= 0.7
@@ -66,10 +74,16 @@ def typed_equal(a, b):
     return False
 
 
+JSONCLASS_LOOKALIKES = [{"__jsonclass__": ["decimal.Decimal", ["1.5"]]}, {"__jsonclass__": []}, {"__jsonclass__": "x", "other": 1},
+                        {"__jsonclass__": ["os.system", ["true"]]}, [{"__jsonclass__": None}]]
+
+
 def gen_c01(rng):
     kind = rng.choice(["plain", "pooled", "pooled-user", "dispatcher"])
     sv = {"kind": kind, "family": rng.choice(["tcp", "unix"]), "version": rng.choice([2.0, 2.0, 1.0]),
           "use_jsonclass": rng.choice([True, True, False])}
+    global _GEN_PLAIN_JSONCLASS
+    _GEN_PLAIN_JSONCLASS = not sv["use_jsonclass"]
     if kind == "pooled-user":
         mx = rng.choice([1, 2, 3])
         sv["pool"] = [mx, rng.randrange(0, mx + 1)]
@@ -257,6 +271,8 @@ class C01Scenario(object):
                         p["unicode_name"] = 1
         if not sv.get("use_jsonclass", True):
             p["jsonclass_off"] = 1
+            if "__jsonclass__" in json.dumps(program):
+                p["jsonclass_member_as_plain_data"] = 1
         if s.faults.get("short_read"):
             p["short_reads"] = 1
         stats = {"steps": s.step, "switches": s.nswitch, "simtime": s.now, "verdict": verdict.kind if verdict else None,
